@@ -70,10 +70,15 @@ class Stream:
     def content(self):
         return (self.alg, self.N, self.S, self.data)
 
+def _reg(ex, it):
+    """remember every stream object of the path (write-effect harnesses mark the existing ones as shared)"""
+    ex.pstate.setdefault('streams', []).append(it.val if isinstance(it, Iface) else it)
+    return it
+
 def _mut(ex, s, what):
     log = getattr(ex, 'effects', None)
     if log is not None and s.shared:
-        log.append(('stream-mutation', what))
+        log.append(('stream-mutation', '%s on a %s object that existed before the operation' % (what, s.alg)))
 
 def s_write(ex, a, ins):
     s, p = a[0], a[1]
@@ -100,6 +105,10 @@ def s_sum(ex, a, ins):
     s, b = a[0], a[1]
     dig = [OUT(s.st, z3.BitVecVal(i, 32)) for i in range(s.size)]
     register_digest(ex, s.content(), dig)
+    # append semantics: the digest is written in place when the argument has spare capacity
+    if isinstance(b, Slice) and isinstance(b.len, int) and isinstance(b.cap, int) and b.ptr.obj is not None and b.cap - b.len >= s.size:
+        ex.write_bytes(Slice(b.ptr.add(b.len), s.size, b.cap - b.len), dig)
+        return Slice(b.ptr, b.len + s.size, b.cap)
     pre = ex.read_bytes(b) if isinstance(b, Slice) and b.len else []
     return ex.make_bytes(pre + dig, 'sum')
 
@@ -110,20 +119,20 @@ def s_reset(ex, a, ins):
     return None
 
 def s_clone(ex, a, ins):
-    return Iface(STREAM_T, a[0].clone())
+    return _reg(ex, Iface(STREAM_T, a[0].clone()))
 
 def new_cshake128(ex, a, ins):
     N, S = ex.read_bytes(a[0]), ex.read_bytes(a[1])
     init = ALG(z3.BitVecVal(ALGID['cshake128'], 32), chain(EMPTY, N), chain(EMPTY, S))
-    return Iface(STREAM_T, Stream('cshake128', init, 32, 168, N, S))
+    return _reg(ex, Iface(STREAM_T, Stream('cshake128', init, 32, 168, N, S)))
 
 def new_sha256(ex, a, ins):
     init = ALG(z3.BitVecVal(ALGID['sha256'], 32), EMPTY, EMPTY)
-    return Iface(STREAM_T, Stream('sha256', init, 32, 64))
+    return _reg(ex, Iface(STREAM_T, Stream('sha256', init, 32, 64)))
 
 def new_sha384(ex, a, ins):
     init = ALG(z3.BitVecVal(ALGID['sha384'], 32), EMPTY, EMPTY)
-    return Iface(STREAM_T, Stream('sha384', init, 48, 128))
+    return _reg(ex, Iface(STREAM_T, Stream('sha384', init, 48, 128)))
 
 def sum256(ex, a, ins):
     st = chain(ALG(z3.BitVecVal(ALGID['sha256'], 32), EMPTY, EMPTY), ex.read_bytes(a[0]))
